@@ -13,6 +13,7 @@ import Proofs.Lemmas.C13Nothing
 import Proofs.Lemmas.C13Perm
 import Proofs.Lemmas.C13F64Inst
 import Proofs.Lemmas.C13Interp
+import Proofs.Lemmas.C13Mid
 
 namespace C13
 open Math
@@ -424,26 +425,27 @@ theorem nothing_summary_f64_odd (vals : List Bits) (t : Thresholds) (conf : Bits
         sorted_get?_le vals hs _ _ (by omega) _ a hcq ha⟩
 
 open F64 in
-/-- **nothing_summary_f64_even_partial** — float64 samples of even size n ≤ 70 (finite, sorted), any
-external QuantileCI result whose band contains the middle: the centre is
-`a + 0.5*(b − a)` evaluated in float64 on the two middle values a ≤ b of the sample; Lo is −∞ or a
-sample value ≤ a, Hi is +∞ or a sample value ≥ b (exact values); confidence and warning as for odd n.
-GAP (why `_partial`): that the rounded interpolation itself lies in [a, b] (hence Lo ≤ centre ≤ Hi)
-is not proved at the float level — it needs monotonicity and exactness of `F64.add`/`F64.sub`,
-which the float64 lemma library does not provide yet, and it is false exactly in class X1
-(`median_overflow_witness`). The search layer checks |centre − (a+b)/2| ≤ 2⁻⁵²·max(|a|,|b|) + 2⁻¹⁰⁷⁴
-and Lo ≤ centre ≤ Hi in exact rationals on every case; in exact arithmetic it is
-`nothing_summary_spec`. -/
-theorem nothing_summary_f64_even_partial (vals : List Bits) (t : Thresholds) (conf : Bits) (ci : Nothing.QCI)
-    (tab : List (Nat × Nat))
+/-- **nothing_summary_f64_even** — `AssumeNothing.Summary` on float64 samples of even size n ≤ 70
+(finite values, sorted), any external QuantileCI result whose band contains the middle, and b − a
+finite for the two middle values a ≤ b (not in class X1): the centre
+`a + 0.5*(b − a)`, evaluated in float64 with three roundings, is finite, lies in [a, b] by exact
+value — hence Lo ≤ centre ≤ Hi — and is within max(|a|,|b|)·2⁻⁵¹ + 2⁻¹⁰⁷³ of the exact midpoint
+(a + b)/2 (`midpoint_f64`); Lo is −∞ or a sample value, Hi is +∞ or a sample value; confidence and
+warning as for odd n. (Closes the former `nothing_summary_f64_even_partial`.) -/
+theorem nothing_summary_f64_even (vals : List Bits) (t : Thresholds) (conf : Bits) (ci : Nothing.QCI)
+    (tab : List (Nat × Nat)) (hc : ∀ v ∈ vals, Canon v)
     (hs : vals.Pairwise (fun a b => sval a ≤ sval b))
     (h2 : 2 ≤ vals.length) (h70 : vals.length ≤ 70) (heven : vals.length % 2 = 0)
+    (hfin : ∀ a b, vals[vals.length / 2 - 1]? = some a → vals[vals.length / 2]? = some b →
+      isFinite (F64.sub b a) = true)
     (hlo : ci.loOrder ≤ (vals.length + 1) / 2) (hhi : vals.length / 2 + 1 ≤ ci.hiOrder) :
     ∃ r a b, Nothing.summary (⟨vals, t⟩ : Sample Bits) conf ci tab = some r ∧
-      vals[vals.length / 2 - 1]? = some a ∧ vals[vals.length / 2]? = some b ∧ sval a ≤ sval b ∧
-      r.center = F64.add a (F64.mul half (F64.sub b a)) ∧
-      (r.lo = .negInf ∨ ∃ x ∈ vals, r.lo = .fin x ∧ sval x ≤ sval a) ∧
-      (r.hi = .posInf ∨ ∃ x ∈ vals, r.hi = .fin x ∧ sval b ≤ sval x) ∧
+      vals[vals.length / 2 - 1]? = some a ∧ vals[vals.length / 2]? = some b ∧
+      r.center = F64.add a (F64.mul half (F64.sub b a)) ∧ isFinite r.center = true ∧
+      sval a ≤ sval r.center ∧ sval r.center ≤ sval b ∧
+      |sval r.center - (sval a + sval b) / 2| ≤ max |sval a| |sval b| / 2 ^ 51 + 4 * tinyQ ∧
+      (r.lo = .negInf ∨ ∃ x ∈ vals, r.lo = .fin x ∧ sval x ≤ sval r.center) ∧
+      (r.hi = .posInf ∨ ∃ x ∈ vals, r.hi = .fin x ∧ sval r.center ≤ sval x) ∧
       r.confidence = ci.confidence ∧
       (r.warnings ≠ [] ↔ (r.lo = .negInf ∨ r.hi = .posInf)) := by
   have h1 : vals.length / 2 - 1 < vals.length := by omega
@@ -454,15 +456,25 @@ theorem nothing_summary_f64_even_partial (vals : List Bits) (t : Thresholds) (co
   obtain ⟨r, hr, hcen, hl0, hl1, hh0, hh1, hconf, hw⟩ :=
     summary_shape (⟨vals, t⟩ : Sample Bits) conf ci tab _ hq (by simp only; omega) (by omega)
   simp only at hl1 hh0 hh1
-  refine ⟨r, _, _, hr, ha, hb, sorted_get?_le vals hs _ _ (by omega) _ _ ha hb, hcen, ?_, ?_, hconf, hw⟩
+  have hab := sorted_get?_le vals hs _ _ (by omega) _ _ ha hb
+  have ca := hc _ (List.getElem_mem h1)
+  have cb := hc _ (List.getElem_mem h2')
+  obtain ⟨m1, m2, m3, m4⟩ := midpoint_f64 vals[vals.length / 2 - 1] vals[vals.length / 2] ca.1 cb.1 hab
+    (hfin _ _ ha hb)
+  have hcen' : r.center = F64.add vals[vals.length / 2 - 1]
+      (F64.mul halfB (F64.sub vals[vals.length / 2] vals[vals.length / 2 - 1])) := hcen
+  rw [← hcen'] at m1 m2 m3 m4
+  refine ⟨r, _, _, hr, ha, hb, hcen, m1, m2, m3, m4, ?_, ?_, hconf, hw⟩
   · by_cases hl : ci.loOrder < 1
     · exact Or.inl (hl0 hl)
     · obtain ⟨x, hx, hrx⟩ := hl1 (by omega)
-      exact Or.inr ⟨x, List.mem_of_getElem? hx, hrx, sorted_get?_le vals hs _ _ (by omega) x _ hx ha⟩
+      exact Or.inr ⟨x, List.mem_of_getElem? hx, hrx,
+        le_trans (sorted_get?_le vals hs _ _ (by omega) x _ hx ha) m2⟩
   · by_cases hh : ci.hiOrder - 1 ≥ vals.length
     · exact Or.inl (hh0 hh)
     · obtain ⟨x, hx, hrx⟩ := hh1 (by omega)
-      exact Or.inr ⟨x, List.mem_of_getElem? hx, hrx, sorted_get?_le vals hs _ _ (by omega) _ x hb hx⟩
+      exact Or.inr ⟨x, List.mem_of_getElem? hx, hrx,
+        le_trans m3 (sorted_get?_le vals hs _ _ (by omega) _ x hb hx)⟩
 
 /-- **combine_symmetric** (float64) — `math.Min(1, 2*math.Min(l1.P, l2.P))` as the model evaluates it
 is symmetric in the two one-sided results, for all bit patterns; consequently exchanging the samples
